@@ -57,6 +57,10 @@ class Sources:
             if os.environ.get("AUREL_NO_CANON") != "1":
                 from . import canon
                 tree = canon.canonicalise(tree, self._signatures())
+                try:        # the canonical form must still be a program
+                    compile(tree, rel, "exec")
+                except (SyntaxError, ValueError, TypeError) as e:
+                    raise AnalysisError(f"{rel}: canonical form does not compile: {e}") from e
             singles = (ast.expr_context, ast.operator, ast.cmpop, ast.boolop, ast.unaryop)
             for node in ast.walk(tree):
                 for ch in ast.iter_child_nodes(node):
